@@ -579,3 +579,43 @@ def check_no_operand_narrowing(ctx, res, families=None, config="all"):
             res.ok("R2-operand-narrowed", b.path, None, nontrivial=False)
     res.distinct.add("R2-operand-narrowed:all")
     res.clause("R2: no operator impl narrows a scalar operand with a lossy cast")
+
+
+CONVERSION_TRAITS = ("core::convert::TryFrom", "core::convert::From", "num_traits::FromPrimitive", "biguint::ToBigUint", "bigint::ToBigInt")
+# reviewed: digit splitting of a wide primitive inside a loop that consumes every digit
+NARROWING_OK = {"biguint::convert::<impl core::convert::From<u128> for biguint::BigUint>::from": "pushes `n as BigDigit` then shifts n down: every digit is consumed"}
+
+
+def check_no_width_narrowing_in_conversions(ctx, res, config="all"):
+    """conversions from primitives never cast their input to a narrower integer type (value-changing for large inputs)"""
+    from . import tests as _t
+
+    facts = ctx.facts(config)
+    n = 0
+    for b in facts.bodies:
+        if b.trait not in CONVERSION_TRAITS or b.kind != "AssocFn":
+            continue
+        if not any(is_big(t) for t in [b.self_ty or ""] + list(b.trait_args)):
+            continue
+        n += 1
+        at = None
+        bad = None
+        for i, si, s in b.stmts():
+            rv = s.get("rv")
+            if rv and rv["k"] == "cast" and rv["ck"] == "IntToInt":
+                fa, fb = int_info(rv["from"]), int_info(rv["to"])
+                if fa and fb and fb[1] < fa[1]:
+                    if at is None:
+                        at = _t.Atoms(b)
+                    a = at.of_operand(rv["op"])
+                    if _t.params_of(a) and not _t.calls_of(a):
+                        bad = (rv["from"], rv["to"], s["span"]["line"])
+        if bad and b.path not in NARROWING_OK:
+            res.fail(Finding("R2-conversion-narrowed", b.path, "the input is cast %s -> %s (line %s): inputs that need more than %s lose their high bits" % (bad[0], bad[1], bad[2], bad[1]), b, bad[2]))
+        else:
+            res.ok("R2-conversion-narrowed", b.path, None, nontrivial=False)
+    res.distinct.add("R2-conversion-narrowed:all")
+    res.count("conversion impls checked for narrowing", n)
+    if n < 85:
+        res.fail(Finding("R2-anchor-lost", "conversions", "only %d conversion impls found (floor 85)" % n, file="src/biguint/convert.rs", line=0))
+    res.clause("C08: no From/TryFrom/FromPrimitive/ToBig* impl casts its primitive input to a narrower integer type (one reviewed digit-splitting loop excepted)")
